@@ -1,5 +1,6 @@
 import RV.C20.Refine
 import RV.C20.Pattern
+import RV.C20.Reads
 /-
   C20 — property theorems (statements first, as `def … : Prop`, then the proofs).
 
@@ -80,7 +81,33 @@ def Statement_pattern_query_shape : Prop :=
   (∀ (d : DS) (g : GName) (p : TPat) (t : Triple),
       t ∈ triplesOut d g p p ↔ ((t, g) ∈ d.quads ∧ p.matches t = true))
 
+/-- reads return exactly what the endpoint's dataset contains, after ANY history and in every
+    configuration: the endpoint never holds a quad twice, so `len` (the number of rows of the
+    addressed graph) counts every triple of that graph once; `triples` yields exactly the matching
+    triples of the addressed graph; membership answers whether there is one; `contexts(t)` lists
+    exactly the recorded named graphs holding `t`, `contexts()` all recorded named graphs. -/
+def Statement_reads_exact : Prop :=
+  ∀ (d0 : DS) (ac dirty hook : Bool) (ops : List Op), d0.quads.Nodup →
+    let d := ((Remote.init d0 ac dirty hook false).run ops).ep
+    d.quads.Nodup ∧
+    (∀ g, readOut hook d (.len g) = .num (graphTriples d g).length ∧ (graphTriples d g).Nodup ∧
+        ∀ t, t ∈ graphTriples d g ↔ (t, g) ∈ d.quads) ∧
+    (∀ g p, p.plain = true → ∃ ts, readOut hook d (.triples p g) = .triples ts ∧
+        ∀ t, t ∈ ts ↔ ((t, g) ∈ d.quads ∧ p.matches t = true)) ∧
+    (∀ g p, p.plain = true → ∃ b, readOut hook d (.contains p g) = .bool b ∧
+        (b = true ↔ ∃ t, (t, g) ∈ d.quads ∧ p.matches t = true)) ∧
+    (∀ t, t.plain = true → ∃ ns, readOut hook d (.contexts (some t)) = .names ns ∧
+        ∀ n, n ∈ ns ↔ (n ∈ d.graphs ∧ (t, some n) ∈ d.quads)) ∧
+    readOut hook d (.contexts none) = .names d.graphs
+
 /-! ### Proofs -/
+
+theorem reads_exact : Statement_reads_exact := by
+  intro d0 ac dirty hook ops h0
+  have hn := nodup_run ops (Remote.init d0 ac dirty hook false) h0
+  exact ⟨hn, fun g => ⟨rfl, nodup_graphTriples g _ hn, mem_graphTriples _ g⟩,
+    fun g p hp => triples_exact hook _ g p hp, fun g p hp => contains_exact hook _ g p hp,
+    fun t ht => contexts_exact hook _ t ht, rfl⟩
 
 theorem remote_mirrors : Statement_remote_mirrors := by
   intro d0 dirty hook ops hp
